@@ -142,6 +142,149 @@ let run_list params ops =
     | _ -> "UNKNOWN_OP") ops in
   String.concat " ; " (out @ ["E 0"])
 
+
+(* ---------------- hash array ---------------- *)
+let run_harr params ops =
+  let rip, hm, ha, hb = match params with [a; b; c; d] -> (a <> Z0, b, c, d) | _ -> failwith "harr params" in
+  let hf (k : z * z) : z =
+    let id = fst k in
+    let x = if int_of_z hm > 0 then Z.modulo id hm else id in
+    Z.add (Z.mul x ha) hb in
+  let eqb (a : z * z) (b : z * z) : bool = Z.eqb (fst a) (fst b) in
+  let st = ref ha_new in
+  let kv (k : z * z) = h (fst k) ^ "." ^ h (snd k) in
+  let cnts () = h (zi (List.length (ha_arr !st))) ^ " " ^ h (hcount (ha_h !st)) in
+  let out = List.map (fun tok ->
+    let (o, a) = fields tok in
+    let arg i = List.nth a i in
+    let stepop op = let (s', r) = ha_step hf eqb !st op in st := s'; r in
+    match o with
+    | "i" | "I" ->
+      (match stepop (AInsert (arg 0, arg 1)) with
+       | AIns (added, pos) ->
+         if o = "I" then Printf.sprintf "I %s %s" (bi added) (cnts ())
+         else Printf.sprintf "i %s %s %s 1" (bi added) (h pos) (cnts ())
+       | _ -> "?")
+    | "l" | "L" ->
+      (match stepop (ALookup (arg 0, Z0)) with
+       | ALook (Some p) -> if o = "L" then "L 1" else "l 1 " ^ h p
+       | ALook None -> if o = "L" then "L 0" else "l 0"
+       | _ -> "?")
+    | "f" -> (match stepop AForeach with AList l -> String.concat " " ("f" :: hi (List.length l) :: List.map h l) | _ -> "?")
+    | "v" -> "v 1"
+    | "d" -> let l = ha_arr !st in String.concat " " ("d" :: hi (List.length l) :: List.map kv l)
+    | "t" -> ignore (stepop ATruncate); "t " ^ cnts ()
+    | "c" -> let hh = ha_h !st in Printf.sprintf "c %s | %s %s %s" (cnts ()) (h (nslots hh)) (h (hchecks hh)) (h (hactions hh))
+    | _ -> "UNKNOWN_OP") ops in
+  let tail = if rip then (let l = ha_arr !st in [String.concat " " ("R" :: hi (List.length l) :: List.map kv l)]) else [] in
+  String.concat " ; " (out @ tail @ ["E 0"])
+
+(* ---------------- recycle array ---------------- *)
+let run_rec params ops =
+  let st = ref ra_init in
+  let live : z list ref = ref [] in            (* live positions in insertion order *)
+  let rec remove_nth k l = match l with [] -> [] | x :: t -> if k = 0 then t else x :: remove_nth (k - 1) t in
+  let out = List.map (fun tok ->
+    let (o, a) = fields tok in
+    let arg i = List.nth a i in
+    let stepop op = let (s', r) = rstep !st op in st := s'; r in
+    let lens () = h (zi (List.length (ra_a !st))) ^ " " ^ h (zi (List.length (ra_f !st))) in
+    match o with
+    | "i" ->
+      (match stepop (RInsert (Z0, arg 0)) with
+       | RoIns (pos, c) ->
+         let distinct = not (List.exists (fun q -> Z.eqb q pos) !live) in
+         live := !live @ [pos];
+         Printf.sprintf "i %s 1 %s | %s %s" (bi distinct) (h c) (h pos) (lens ())
+       | _ -> "?")
+    | "r" ->
+      let k = int_of_z (arg 0) in
+      let pos = List.nth !live k in
+      live := remove_nth k !live;
+      (match stepop (RRemove pos) with RoRem (v, c) -> Printf.sprintf "r %s 1 %s | %s" (h v) (h c) (h pos) | _ -> "?")
+    | "w" -> ignore (stepop (RWrite (List.nth !live (int_of_z (arg 0)), arg 1))); "w"
+    | "g" -> (match stepop (RRead (List.nth !live (int_of_z (arg 0)))) with RoRd v -> "g " ^ h v | _ -> "?")
+    | "c" -> (match stepop RCount with RoCnt (c, sl, f) -> Printf.sprintf "c %s %s %s 1" (h c) (h sl) (h f) | _ -> "?")
+    | "x" -> ignore (stepop RReset); live := []; "x " ^ h (ra_count !st)
+    | _ -> "UNKNOWN_OP") ops in
+  String.concat " ; " (out @ ["E 0"])
+
+(* ---------------- key-value store ---------------- *)
+let run_kv params ops =
+  (* the theorems hold for every hash function on keys; iteration order and slot layout are not judged *)
+  let hfk (k : z) : z = Z.modulo (Z.mul k (zi 40503)) (zi 65536) in
+  let keq (a : z) (b : z) : bool = Z.eqb a b in
+  let st = ref kv_new in
+  let out = List.map (fun tok ->
+    let (o, a) = fields tok in
+    let arg i = List.nth a i in
+    let stepop op = let (s', r) = kstep hfk keq !st op in st := s'; r in
+    match o with
+    | "P" -> ignore (stepop (KPut (arg 0, arg 1, arg 2))); "P"
+    | "S" -> ignore (stepop (KSet (arg 0, arg 1, arg 2))); "S"
+    | "G" -> (match stepop (KGet (arg 0, arg 1, arg 2)) with KoVal v -> "G " ^ h v | _ -> "?")
+    | "K" -> (match stepop (KGetIntCheck (arg 0, arg 1)) with KoChk (v, e) -> Printf.sprintf "K %s %s" (h v) (h e) | _ -> "?")
+    | "E" -> (match stepop (KExists (arg 0)) with KoType t -> "E " ^ h t | _ -> "?")
+    | "U" -> (match stepop (KUnset (arg 0)) with KoType t -> "U " ^ h t | _ -> "?")
+    | "F" -> (match stepop KForeach with
+        | KoList l -> String.concat " " ("F" :: hi (List.length l) :: List.map (fun e -> Printf.sprintf "%s:%s:%s" (h e.e_key) (h e.e_type) (h e.e_val)) l)
+        | _ -> "?")
+    | "C" -> (match stepop KCount with
+        | KoCnt (c, p) -> let hh = kv_hash !st in Printf.sprintf "C %s %s | %s %s %s" (h c) (h p) (h (nslots hh)) (h (hchecks hh)) (h (hactions hh))
+        | _ -> "?")
+    | _ -> "UNKNOWN_OP") ops in
+  String.concat " ; " (out @ ["E 0"])
+
+(* ---------------- AVL tree ---------------- *)
+let run_avl params ops =
+  let mode, withfree = match params with [a; b] -> (int_of_z a, b <> Z0) | _ -> failwith "avl params" in
+  let sgn x = match x with Z0 -> Z0 | Zpos _ -> zi 1 | Zneg _ -> zi (-1) in
+  let cmp (a : z * z) (b : z * z) : z =
+    let x = fst a and y = fst b in
+    match mode with
+    | 1 -> Z.sub y x
+    | 2 -> Z.sub (Z.div x (zi 4)) (Z.div y (zi 4))
+    | 3 -> sgn (Z.sub x y)
+    | _ -> Z.sub x y in
+  let st = ref avl_new in
+  let freed = ref 0 in
+  let kt (k : z * z) = h (fst k) ^ "." ^ h (snd k) in
+  let ok = function Some k -> kt k | None -> "-" in
+  let rec height t = match t with E -> 0 | N (l, _, _, r) -> 1 + max (height l) (height r) in
+  let size () = List.length (inorder (a_top !st)) in
+  let out = List.map (fun tok ->
+    let (o, a) = fields tok in
+    let arg i = if i < List.length a then List.nth a i else Z0 in
+    let stepop op = let (s', r) = vstep cmp !st op in st := s'; r in
+    let count () = h (cnt (a_top !st)) in
+    let lst c r = match r with VoList l -> String.concat " " (c :: hi (List.length l) :: List.map kt l) | _ -> "?" in
+    match o with
+    | "i" -> (match stepop (VInsert (arg 0, arg 1)) with VoBool b -> Printf.sprintf "i %s %s" (bi b) (count ()) | _ -> "?")
+    | "d" -> (match stepop (VDelete (arg 0, Z0)) with
+        | VoItem (Some k) -> incr freed; Printf.sprintf "d 1 %s %s" (kt k) (count ())
+        | VoItem None -> "d 0 " ^ count ()
+        | _ -> "?")
+    | "s" -> (match stepop (VSearch (arg 0, Z0)) with VoItem (Some k) -> "s 1 " ^ kt k | VoItem None -> "s 0" | _ -> "?")
+    | "n" -> (match stepop (VClosest (arg 0, Z0)) with
+        | VoClosest (Some (k, sg)) -> Printf.sprintf "n | %s %s" (h sg) (kt k)
+        | VoClosest None -> "n | none"
+        | _ -> "?")
+    | "a" -> (match stepop (VAt (arg 0)) with VoItem o -> "a " ^ ok o | _ -> "?")
+    | "x" -> (match stepop (VIndex (arg 0, Z0)) with VoIdx (Some i) -> "x " ^ h i | VoIdx None -> "x -" | _ -> "?")
+    | "c" -> (match stepop VCount with
+        | VoCnt c -> let t = a_top !st in
+          Printf.sprintf "c %s 1 | %s %s" (h c) (match t with N (_, k, _, _) -> h (fst k) | E -> "0") (hi (height t))
+        | _ -> "?")
+    | "f" -> lst "f" (stepop VForeach)
+    | "A" -> lst "A" (stepop VForeach)
+    | "t" -> lst "t" (stepop VThread)
+    | "b" -> lst "b" (stepop VThreadRev)
+    | "e" -> (match stepop VEnds with VoEnds (f, l) -> Printf.sprintf "e %s %s" (ok f) (ok l) | _ -> "?")
+    | "z" -> freed := !freed + size (); ignore (stepop VClear); "z " ^ count ()
+    | _ -> "UNKNOWN_OP") ops in
+  freed := !freed + size ();
+  String.concat " ; " (out @ [Printf.sprintf "Z %s" (hi (if withfree then !freed else 0)); "E 0"])
+
 let () = iter_lines (fun line ->
   match String.index_opt line '|' with
   | None -> if String.trim line <> "" then print_endline "BAD_CASE"
@@ -157,6 +300,10 @@ let () = iter_lines (fun line ->
            | "pool" -> run_pool params ops
            | "uc" -> run_uc params ops
            | "list" -> run_list params ops
+           | "harr" -> run_harr params ops
+           | "rec" -> run_rec params ops
+           | "kv" -> run_kv params ops
+           | "avl" -> run_avl params ops
            | _ -> "UNKNOWN_CONTAINER")
          with Failure m -> "MODEL_FAILURE " ^ m | Not_found -> "MODEL_FAILURE not_found" | Invalid_argument m -> "MODEL_FAILURE " ^ m in
        print_endline out))
